@@ -167,6 +167,12 @@ impl ExecutorInner {
         // In case this executor is nested in another one, reset the counter of in-flight messages.
         let msg_count_stash = channel::THREAD_MSG_COUNT.replace(self.context.msg_count);
 
+        // Likewise, if this executor is nested in another one, this thread is
+        // in the middle of polling a model of the enclosing simulation: its ID
+        // is stashed so that it can be restored once this run completes
+        // (polling a model of this executor overwrites, then clears it).
+        let model_id_stash = CURRENT_MODEL_ID.take();
+
         let result = SIMULATION_CONTEXT.set(&self.simulation_context, || {
             ACTIVE_TASKS.set(&self.active_tasks, || {
                 EXECUTOR_CONTEXT.set(&self.context, || {
@@ -192,10 +198,13 @@ impl ExecutorInner {
         // enclosing one would report spurious unprocessed messages.
         self.context.msg_count = channel::THREAD_MSG_COUNT.replace(msg_count_stash);
 
+        // Retrieve the ID of the last model polled by this executor (only set if
+        // it panicked) and restore the ID of the model of the enclosing
+        // simulation, if any.
+        let model_id = CURRENT_MODEL_ID.replace(model_id_stash);
+
         // Return the panic payload, if any.
         if let Err(payload) = result {
-            let model_id = CURRENT_MODEL_ID.take();
-
             return Err(ExecutorError::Panic(model_id, payload));
         }
 
